@@ -51,6 +51,16 @@ var calibration = func() map[string]calEntry {
 func judgePrecision(c *engine.Chooser, area, key string, bits float64, sigOverride ...string) {
 	id := area + "/" + key
 	c.Note("%s: worst-slot precision %.2f bits", id, bits)
+	if len(sigOverride) > 0 && sigOverride[0] != "" {
+		// Leaf in the input class of a recorded defect (FINDINGS.md): what the unmodified tree produces there is the
+		// defect itself, so it must not be calibrated in. The bound is the fixed floor below which the output simply is
+		// not the input message any more; every working configuration of this check has more than 11 bits.
+		c.Cover("calibration", "known-defect-class")
+		if bits < uninformativeBits {
+			c.Fail(sigOverride[0], "%s: worst-slot precision %.2f bits: the bootstrapped ciphertext does not carry the input message", id, bits)
+		}
+		return
+	}
 	if path := os.Getenv("VERIF_C18_CALIBRATE"); path != "" {
 		f, err := os.OpenFile(path, os.O_APPEND|os.O_CREATE|os.O_WRONLY, 0o644)
 		if err == nil {
